@@ -188,13 +188,29 @@ def _listing(root):
     return out
 
 
-def check_directory(subset, mode, state):
+def check_directory(subset, mode, state, variant="plain"):
+    """variant: 'plain'; 'glob-name' (the directory is called out[1] and a sibling out1 holds files of its own);
+    'json-outside' (reuse mode with the results file in another directory); 'no-logfile' (no log file configured and the
+    process started from a sub-directory of the output directory)"""
     tmp = tempfile.mkdtemp(prefix="c20d_")
+    old_cwd = os.getcwd()
     try:
-        name = os.path.join(tmp, "out")
+        name = os.path.join(tmp, "out[1]" if variant == "glob-name" else "out")
         entries = [DIR_MENU[i] for i in subset]
         if "input/" in entries and "input" in entries:
             return None, None      # a name cannot be both a file and a directory
+        if variant != "plain" and state != "present":
+            return None, None
+        if variant == "json-outside" and mode != "reuse":
+            return None, None
+        if variant == "no-logfile" and ("empty/" not in entries or "run.log" in entries):
+            return None, None      # the process sits in the sub-directory 'empty'; no log file is configured
+        sibling = os.path.join(tmp, "out1")
+        if variant == "glob-name":
+            os.mkdir(sibling)
+            for entry in ("x.region001.gbk", "notes.txt"):
+                with open(os.path.join(sibling, entry), "w", encoding="utf-8") as handle:
+                    handle.write("sibling " + entry)
         if state == "present":
             os.mkdir(name)
             for entry in entries:
@@ -210,9 +226,21 @@ def check_directory(subset, mode, state):
             with open(name, "w", encoding="utf-8") as handle:
                 handle.write("not a directory")
         Cfg.make_config()
-        update_config({"output_dir": name, "logfile": os.path.join(name, "run.log"), "output_basename": ""})
-        input_file = "/data/x.gbk" if mode == "fresh" else os.path.join(name, "x.json")
+        logfile = "" if variant == "no-logfile" else os.path.join(name, "run.log")
+        update_config({"output_dir": name, "logfile": logfile, "output_basename": ""})
+        if variant == "no-logfile":
+            os.chdir(os.path.join(name, "empty"))
+        elsewhere = os.path.join(tmp, "previous")
+        if variant == "json-outside":
+            os.mkdir(elsewhere)
+            with open(os.path.join(elsewhere, "x.json"), "w", encoding="utf-8") as handle:
+                handle.write("{}")
+        if mode == "fresh":
+            input_file = "/data/x.gbk"
+        else:
+            input_file = os.path.join(elsewhere if variant == "json-outside" else name, "x.json")
         before = _listing(name) if os.path.isdir(name) else ("file" if os.path.exists(name) else None)
+        sibling_before = _listing(sibling) if os.path.isdir(sibling) else None
         raised = None
         try:
             as_main.prepare_output_directory(name, input_file)
@@ -220,8 +248,12 @@ def check_directory(subset, mode, state):
             raised = err
         except Exception as err:  # pylint: disable=broad-except
             return [("prepare-raised-unexpected", f"{type(err).__name__}: {str(err)[:120]}")], "error"
+        finally:
+            os.chdir(old_cwd)
         after = _listing(name) if os.path.isdir(name) else ("file" if os.path.exists(name) else None)
         fails = []
+        if sibling_before is not None and _listing(sibling) != sibling_before:
+            fails.append(("other-directory-damaged", f"removed from the sibling directory: {sorted(set(sibling_before) - set(_listing(sibling)))}"))
         outcome = "accepted"
         if state == "absent":
             if raised or not os.path.isdir(name):
@@ -234,8 +266,12 @@ def check_directory(subset, mode, state):
                 fails.append(("file-damaged", ""))
             outcome = "refused"
         else:
-            foreign = [e for e in entries if e not in ("input/", "run.log")]
-            if mode == "fresh":
+            own = ("input/", "run.log") if variant != "no-logfile" else ("input/",)
+            foreign = [e for e in entries if e not in own]
+            # results being reused are the previous results in the output directory itself; with the results file somewhere
+            # else the directory's content is foreign to the run, exactly as for a fresh input
+            judged_fresh = mode == "fresh" or variant == "json-outside"
+            if judged_fresh:
                 if foreign:
                     outcome = "refused"
                     if not raised:
@@ -245,7 +281,7 @@ def check_directory(subset, mode, state):
                 else:
                     if raised:
                         fails.append(("own-content-refused", f"{entries}: {raised}"))
-                    if after != before:
+                    if after != before and mode == "fresh":
                         fails.append(("accepted-directory-changed", f"{sorted(set(before) - set(after))}"))
             else:
                 if raised:
@@ -255,11 +291,17 @@ def check_directory(subset, mode, state):
                 allowed = {"x.region001.gbk"}
                 if not removed <= allowed or changed or set(after) - set(before):
                     fails.append(("reuse-damaged-directory", f"removed={sorted(removed)} changed={sorted(changed)}"))
+                if mode == "reuse" and "x.region001.gbk" in before and "x.region001.gbk" in after:
+                    fails.append(("reuse-left-stale-region-file", ""))
                 if removed:
                     outcome = "reuse-removed"
         return fails, outcome
     finally:
+        os.chdir(old_cwd)
         shutil.rmtree(tmp, ignore_errors=True)
+
+
+DIR_VARIANTS = ("plain", "glob-name", "json-outside", "no-logfile")
 
 
 def shards(tier):
@@ -301,14 +343,16 @@ def run_shard(shard):
         index = 0
         for size in range(len(DIR_MENU) + 1):
             for subset in itertools.combinations(range(len(DIR_MENU)), size):
-                for mode in ("fresh", "reuse"):
-                    for state in (("present",) if subset else ("present", "absent", "file")):
+                for mode, state, variant in itertools.product(("fresh", "reuse"), (("present",) if subset else ("present", "absent", "file")),
+                                                              DIR_VARIANTS):
+                    if True:    # pylint: disable=using-constant-test
                         index += 1
                         if index % 8 != chunk:
                             continue
-                        fails, outcome = check_directory(subset, mode, state)
+                        fails, outcome = check_directory(subset, mode, state, variant)
                         if fails is None:
                             continue
+                        res.buckets[f"dir:variant:{variant}"] += 1
                         res.evals += 1
                         res.nontrivial += bool(subset)
                         res.buckets[{"refused": "dir:refused", "accepted": "dir:accepted", "created": "dir:created",
@@ -316,6 +360,8 @@ def run_shard(shard):
                         res.outcomes[("dir", mode, state, outcome, tuple(sorted(c for c, _ in fails)))] += 1
                         if fails or res.evals % 53 == 1:
                             case = {"kind": "dir", "subset": list(subset), "mode": mode, "state": state}
+                            if variant != "plain":
+                                case["variant"] = variant
                             for clause, detail in fails:
                                 res.fail(case, clause, detail)
                             res.sample(case)
@@ -326,4 +372,4 @@ def replay(case):
     if case["kind"] == "write":
         fault = tuple(case["fault"]) if case["fault"] else None
         return check_write(case["writer"], case["records"], case["modules"], fault, case["existing"])[0]
-    return check_directory(tuple(case["subset"]), case["mode"], case["state"])[0] or []
+    return check_directory(tuple(case["subset"]), case["mode"], case["state"], case.get("variant", "plain"))[0] or []
